@@ -66,7 +66,9 @@ def guardsCover (cases calls : List String) : Bool :=
 
 theorem elements_read_only_found_iterators :
     guardsCover scanWaysCases scanWaysGuardedCalls = true ∧ guardsCover scanRelationsCases scanRelationsGuardedCalls = true ∧
-    scanWaysGuardedCalls.length = 1 ∧ scanRelationsGuardedCalls.length = 2 := by decide
+    scanWaysGuardedCalls.length = 1 ∧ scanRelationsGuardedCalls.length = 2 ∧
+    -- and there is no call of the two consumers outside those guards
+    scanWaysConsumerCallCount = scanWaysGuardedCalls.length ∧ scanRelationsConsumerCallCount = scanRelationsGuardedCalls.length := by decide
 
 /-- the parameters and the string table cached from the previous block are cleared before a block is read:
     an absent granularity, offset or date granularity takes the format default, not the previous block's value -/
